@@ -1375,10 +1375,10 @@ m("C15", "refactor-digest-loop", ZT,
 # ---- C16 -------------------------------------------------------------------
 m("C16", "stale-macros-kept", TP,
   '''        for attr in [
-            attr for attr in self.__dict__
+            attr for attr in list(self.__dict__)
             if attr.startswith("_render") and attr[1:] not in functions
         ]:
-            delattr(self, attr)
+            self.__dict__.pop(attr, None)
 
 ''', '')
 m("C16", "flag-before-publish", TP,
@@ -1876,28 +1876,28 @@ m("C17", "meta-search-bounded", "utils.py",
   "    match = RE_META.search(body, 0, 2048)")
 m("C16", "retire-only-on-reload", "template.py",
   '''        for attr in [
-            attr for attr in self.__dict__
+            attr for attr in list(self.__dict__)
             if attr.startswith("_render") and attr[1:] not in functions
         ]:
-            delattr(self, attr)''',
+            self.__dict__.pop(attr, None)''',
   '''        for attr in [
             attr for attr in self.__dict__
             if attr.startswith("_render") and attr[1:] not in functions
         ] if self.__dict__.get("_cooked") else []:
-            delattr(self, attr)''')
+            self.__dict__.pop(attr, None)''')
 m("C16", "retire-list-guard-refactor", "template.py",
   '''        for attr in [
-            attr for attr in self.__dict__
+            attr for attr in list(self.__dict__)
             if attr.startswith("_render") and attr[1:] not in functions
         ]:
-            delattr(self, attr)''',
+            self.__dict__.pop(attr, None)''',
   '''        stale = [
-            attr for attr in self.__dict__
+            attr for attr in list(self.__dict__)
             if attr.startswith("_render") and attr[1:] not in functions
         ]
         if stale:
             for attr in stale:
-                delattr(self, attr)''', expect="silent")
+                self.__dict__.pop(attr, None)''', expect="silent")
 m("C14", "i18n-attrs-sorted-set-refactor", "tal.py",
   '''    for name in i18n_attributes:
         attr = name.lower()''',
@@ -1948,3 +1948,6 @@ m("C15", "stable-name-for-closures", ZT,
   '''    if module and name and '<' not in name and \\
             getattr(value, '__closure__', None) is None:''',
   '''    if module and name:''')
+m("C14", "retire-walks-live-dict", "template.py",
+  "            attr for attr in list(self.__dict__)\n",
+  "            attr for attr in self.__dict__\n")
